@@ -30,6 +30,9 @@ func eq(condition, data any, propExists bool) (bool, error) {
 	case immutable.Option[float64]:
 		data = immutableValueOrNil(arr)
 
+	case immutable.Option[float32]:
+		data = immutableValueOrNil(arr)
+
 	case immutable.Option[string]:
 		data = immutableValueOrNil(arr)
 	}
